@@ -16,7 +16,10 @@ type SimState struct {
 	clock time.Duration
 	live  map[[2]int]bool
 	alt   map[[2]int]bool
-	nodes []nodeState
+	// passive: Sim.Passive (static in most configurations; changed by the C18 event "neighbour
+	// becomes an explicitly configured one", see ext_c18.go)
+	passive map[[2]int]bool
+	nodes   []nodeState
 }
 
 type nodeState struct {
@@ -56,7 +59,7 @@ func copyBoolMap[K comparable](m map[K]bool) map[K]bool {
 }
 
 func (s *Sim) Save() *SimState {
-	st := &SimState{clock: vtime.Now().Sub(vtime.Epoch), live: copyBoolMap(s.Live), alt: copyBoolMap(s.Alt)}
+	st := &SimState{clock: vtime.Now().Sub(vtime.Epoch), live: copyBoolMap(s.Live), alt: copyBoolMap(s.Alt), passive: copyBoolMap(s.Passive)}
 	for _, n := range s.Nodes {
 		ns := nodeState{up: n.Up, booting: n.Booting, rs: n.DV.VerifSave(), nonce: n.Eng.nonce, routes: make(map[RouteKey]uint64, len(n.Routes)),
 			cmdProb: append([]string{}, n.CmdProblems...), pubSets: make(map[uint64][]string, len(n.PubSets)), pubCur: copyBoolMap(n.PubCur), pubSeq: n.PubSeq, failIn: n.Eng.failIn, fails: n.Eng.fails}
@@ -77,6 +80,7 @@ func (s *Sim) Restore(st *SimState) {
 	vtime.Advance(st.clock)
 	vsched.Reset()
 	s.Live, s.Alt = copyBoolMap(st.live), copyBoolMap(st.alt)
+	s.Passive = copyBoolMap(st.passive)
 	s.Problems, s.AdvSeen, s.AdvTorn = nil, nil, nil
 	s.Held, s.HeldDesc, s.holdSite, s.holdCut, s.HeldNbr = nil, "", "", false, -1
 	s.InFlight = nil
@@ -106,7 +110,7 @@ func (s *Sim) Restore(st *SimState) {
 // times. It is used to cross-check restored states against plain re-execution.
 func (s *Sim) FullDump() string {
 	var b strings.Builder
-	fmt.Fprintf(&b, "clock+%v %s alt=%v tasks=%d held=%d inflight=%d\n", vtime.Now().Sub(vtime.Epoch), s.Mode(), sortedPairs(s.Alt), vsched.Pending(), len(s.Held), len(s.InFlight))
+	fmt.Fprintf(&b, "clock+%v %s alt=%v passive=%v tasks=%d held=%d inflight=%d\n", vtime.Now().Sub(vtime.Epoch), s.Mode(), sortedPairs(s.Alt), sortedPairs(s.Passive), vsched.Pending(), len(s.Held), len(s.InFlight))
 	for i, n := range s.Nodes {
 		if n.Booting {
 			b.WriteString("(in its boot window) ")
